@@ -149,7 +149,7 @@ def get_moments_of_inertia(system, weight=True):
     """
     # Move the origin to the geometric center
     positions = system.get_positions()
-    centroid = get_center_of_mass(system, weight)
+    centroid = get_center_of_mass(system)
     pos_shifted = positions - centroid
 
     # Calculate the geometric inertia tensor
